@@ -618,7 +618,7 @@ func run(r *ev.Run) {
 	nRec := r.Scale(14, 240)
 	r.MinDistinct = r.Scale(80, 1500)
 	if !r.Thorough() {
-		cfgs = append(append([]config{}, cfgs[:3]...), cfgs[4]) // safe-1w, safe-3w-p3, unsafe-1w, safe-2w-keep3
+		cfgs = cfgs[:5] // safe-1w, safe-3w-p3, unsafe-1w, unsafe-3w-p3, safe-2w-keep3
 	}
 	shortCfgs := cfgs
 	if !r.Thorough() {
